@@ -4,6 +4,9 @@ CONSTANTS
   MaxLinkMaps = 4
   NNodes = 2
   StopOnDecodeError = TRUE
+  CheckedDeadline = TRUE
+  CheckedExtent = TRUE
+  WaitHasDeadline = FALSE
 INVARIANT Verdict
 POSTCONDITION Accepted
 CHECK_DEADLOCK FALSE
